@@ -80,8 +80,11 @@ def proxy_stream(ctx, res, n):
             except Exception:  # noqa
                 pass
         good = [g for g in good if g is not None][:3]
-        cfg.lst = list(good)
-        cfg.dct = {"k%d" % j: g for j, g in enumerate(good)}
+        try:
+            cfg.lst = list(good)
+            cfg.dct = {"k%d" % j: g for j, g in enumerate(good)}
+        except Exception:  # noqa  (an item field whose own results it does not accept again: C05's findings F22 / F25, not this stream's subject)
+            continue
         for _ in range(6):
             bad = F.gen_value(rng, item, tmp, 0.4)
             lst, dct = cfg.lst, cfg.dct
